@@ -48,6 +48,9 @@ fn inst(t: &mut Tape<'_>) -> Inst {
     let mut cfg = Cfg { encoding: enc, ..Cfg::default() };
     cfg.strict = t.chance(1, 3);
     cfg.graceful_handler = t.chance(1, 3);
+    // per-instance parser options: instances with different options run side by side
+    cfg.esi = t.chance(1, 3);
+    cfg.adjust_charset = t.chance(1, 4);
     match t.below(3) {
         0 => observers(t, &mut cfg, 2, 1),
         _ => {
@@ -64,7 +67,16 @@ fn inst(t: &mut Tape<'_>) -> Inst {
     }
     let spec = sched_spec(t);
     let pauses: Vec<u8> = (0..6).map(|_| t.below(8) as u8).collect();
-    let input = input_in(t, &InputOpts { max_frags: 12, ..Default::default() }, enc);
+    let mut input = input_in(t, &InputOpts { max_frags: 12, ..Default::default() }, enc);
+    if t.chance(1, 3) {
+        // constructs whose meaning depends on a per-instance option (ESI void elements, meta charset)
+        let snippet: &[u8] = *t.pick(&[&b"<div><esi:include src=x><b>t</b></div>"[..], b"<p><esi:comment text=c><i>u</i></p>", b"<meta charset=windows-1252><p>x</p>", b"<ul><li><esi:include><li>v</ul>"]);
+        let at = crate::tape::frac_to_pos(t.frac(), input.len());
+        // only at a position that is not inside a multi-byte character
+        if input.get(at).is_none_or(|b| *b < 0x80) && (at == 0 || input[at - 1] < 0x80) {
+            input.splice(at..at, snippet.iter().copied());
+        }
+    }
     let cuts = spec.resolve(input.len());
     Inst { input, cuts, cfg, pauses }
 }
